@@ -229,6 +229,9 @@ def p_pow(a, e):
     if len(a) == 1:
         ((s, chain), k), = a
         kk = _rat_pow(k, e)
+        if kk is not None and len(chain) == 1 and chain[0].op == "dg" and e > 0:
+            s2 = frozenset((x, ex * e) for x, ex in s)
+            return frozenset([((s2, (A("dg", p_pow(chain[0].kids[0], e)),)), kk)])
         if kk is not None:
             s2 = frozenset((x, ex * e) for x, ex in s)
             if not chain:
@@ -240,6 +243,11 @@ def p_pow(a, e):
             return frozenset([((s2, (atom,)), kk)])
     if not a:
         return ZERO if e > 0 else P_atom(A("div0"), scalar=True)
+    if e.denominator == 1 and 2 <= e <= 3 and len(a) ** int(e) <= MAX_MONOMIALS:
+        out = a
+        for _ in range(int(e) - 1):
+            out = p_had(out, a)
+        return out
     scalar = all(not chain for (s, chain), k in a)
     atom = A("poly", a)
     if scalar:
@@ -285,9 +293,30 @@ def single_atom(p):
     return None
 
 
+def _scalar_factors(chain):
+    """commuting factors of a scalar-valued product: an elementwise product of scalars is
+    the product of its factors (with their exponents)"""
+    if len(chain) == 1 and chain[0].op == "had":
+        return chain[0].kids[0]
+    return frozenset([(chain_atom(chain), ONE)])
+
+
 def wrap(p):
+    if not p:
+        return Fraction(0)
+    if len(p) == 1:
+        ((s, chain), k), = p
+        if not s and not chain:
+            return k
     a = single_atom(p)
-    return a if a is not None else A("poly", p)
+    if a is not None:
+        return a
+    if len(p) == 1:
+        ((s, chain), k), = p
+        if k == 1 and not chain and s:
+            # a product of commuting factors has the same canonical node as the elementwise product
+            return A("had", s)
+    return A("poly", p)
 
 
 _NONE = None
@@ -337,7 +366,45 @@ def _slice_atom(x, axis, hi):
         inner = _prefix_slice(x.kids[1])
         if inner is not None and inner[0] == axis:
             return A("getitem", x.kids[0], _mk_slice(axis, _combine_bounds(inner[1], hi)))
+        # a[:, idx][:, :k] = a[:, idx[:k]]  (fancy index on the sliced axis)
+        fi = x.kids[1]
+        sl0 = A("slice", _none(), hi, _none())
+        if axis == 0 and isinstance(fi, Node) and fi.op not in ("slice", "tuple", "const"):
+            return A("getitem", x.kids[0], A("getitem", fi, sl0))
+        if axis == 1 and isinstance(fi, Node) and fi.op == "tuple" and len(fi.kids) == 2 and isinstance(fi.kids[0], Node) and fi.kids[0].op == "slice" and all(k is _none() for k in fi.kids[0].kids) and isinstance(fi.kids[1], Node) and fi.kids[1].op not in ("slice", "const"):
+            return A("getitem", x.kids[0], A("tuple", fi.kids[0], A("getitem", fi.kids[1], sl0)))
     return A("getitem", x, _mk_slice(axis, hi))
+
+
+_EW = {"add", "sub", "mul", "smul", "div", "sdiv", "pow", "neg", "sqrt", "abs", "exp", "log", "const", "sym", "dim"}
+
+
+def _unmask(v, mask):
+    """f(x[mask], y[mask], ...) -> f(x, y, ...) for elementwise f; None if not of that form"""
+    memo = {}
+
+    def rec(t):
+        if not isinstance(t, Term):
+            return t
+        if t in memo:
+            return memo[t]
+        if t.op == "getitem" and isinstance(t.args[0], Term) and t.args[0].op == "store" and t.args[0].args[1] == mask and t.args[1] == mask:
+            r = rec(t.args[0].args[2])
+        elif t.op == "getitem" and t.args[1] == mask:
+            r = t.args[0]
+        elif t.op in ("const", "dim"):
+            r = t
+        elif t.op in _EW and t.op != "sym":
+            parts = [rec(a) for a in t.args]
+            r = None if any(p is None for p in parts) else Term(t.op, *parts)
+        elif t.op == "sym":
+            r = t
+        else:
+            r = None
+        memo[t] = r
+        return r
+
+    return rec(v)
 
 
 def _const_index(f):
@@ -377,7 +444,7 @@ class Normalizer:
         d = {}
         for (s, chain), k in p:
             if chain:
-                s = _merge_s(s, frozenset([(chain_atom(chain), ONE)]))
+                s = _merge_s(s, _scalar_factors(chain))
             m = (s, ())
             d[m] = d.get(m, 0) + k
         return _mk(d)
@@ -415,6 +482,10 @@ class Normalizer:
             return p_had(self.nf(a[0]), p_pow(self.nf(a[1]), -1))
         if op == "matmul":
             return p_matmul(self.nf(a[0]), self.nf(a[1]))
+        if op == "norm" and len(a) == 1:
+            # Frobenius / Euclidean norm = sqrt(sum of squares)
+            x = self.nf(a[0])
+            return p_pow(self._as_scalar(self.linear_reduce("sum", (Term("nfpoly"),), inner=p_had(x, x))), Fraction(1, 2))
         if op == "pow":
             e = a[1]
             if isinstance(e, Term) and e.op == "const" and isinstance(e.args[0], Fraction):
@@ -445,11 +516,25 @@ class Normalizer:
             x, y = self.nf(a[1]), self.nf(a[2])
             if x == y:
                 return x
+            # `if len(idx) > 0: b[idx] = v` : a store through an empty index is the identity
+            for st_t, other in ((a[1], a[2]), (a[2], a[1])):
+                if isinstance(st_t, Term) and st_t.op == "store" and self.nf(st_t.args[0]) == self.nf(other):
+                    c = a[0]
+                    if isinstance(c, Term) and c.op in ("gt", "lt", "ne", "truthy") and any(isinstance(z, Term) and z.op == "len" for z in c.args):
+                        return self.nf(st_t)
             return P_atom(A("phi", self.freeze(a[0]), wrap(x), wrap(y)))
         if op == "not" and isinstance(a[0], Term) and a[0].op == "not":
             return self.nf(a[0].args[0])
         if op == "getitem":
             base, idx = a[0], a[1]
+            # x[i:i+1] selects element i and keeps a unit axis (an identity reshape)
+            if isinstance(idx, Term) and idx.op == "slice1":
+                idx = idx.args[0]
+            elif isinstance(idx, Term) and idx.op == "tuple" and any(isinstance(z, Term) and z.op == "slice1" for z in idx.args):
+                idx = Term("tuple", *[z.args[0] if isinstance(z, Term) and z.op == "slice1" else z for z in idx.args])
+                full = all(isinstance(z, Term) and z.op == "slice" and all(isinstance(q, Term) and q.op == "const" and q.args[0] is None for q in z.args) for z in idx.args[1:])
+                if full:
+                    idx = idx.args[0]
             fi = self.freeze(idx)
             b = base
             while isinstance(b, Term) and b.op == "store":
@@ -467,9 +552,17 @@ class Normalizer:
             return P_atom(A("getitem", wrap(pb), fi))
         if op == "store":
             base, idx, val = a
+            # an index array obtained from a mask selects the same entries as the mask
+            if isinstance(idx, Term) and idx.op == "nonzero1":
+                idx = idx.args[0]
             fi = self.freeze(idx)
             if isinstance(base, Term) and base.op == "store" and self.freeze(base.args[1]) == fi:
                 base = base.args[0]
+            if isinstance(idx, Term) and idx.op in ("lt", "le", "gt", "ge", "eq", "ne", "not", "and", "or", "bitand", "bitor", "invert", "isnan"):
+                # b[mask] = f(x[mask])  is the elementwise selection where(mask, f(x), b)
+                v2 = _unmask(val, idx)
+                if v2 is not None:
+                    return P_atom(A("where3", fi, wrap(self.nf(v2)), wrap(self.nf(base))))
             return P_atom(A("store", wrap(self.nf(base)), fi, wrap(self.nf(val))))
         if op == "unk":
             return P_atom(A("unk", a[0], a[1]))
@@ -535,6 +628,14 @@ class Normalizer:
             return P_atom(A("fdiv", wrap(self.dim_poly(atom[1])), wrap(self.dim_poly(atom[2]))), scalar=True)
         return P_atom(A("size", repr(atom)), scalar=True)
 
+    def _as_scalar(self, p):
+        d = {}
+        for (s, chain), k in p:
+            if chain:
+                s = _merge_s(s, _scalar_factors(chain))
+            d[(s, ())] = d.get((s, ()), 0) + k
+        return _mk(d)
+
     def _slice_poly(self, p, axis, hi, fi):
         """prefix slice [:hi] on axis 0 (rows of the first factor) or axis 1 (columns of
         the last factor) distributed over sums and pushed into matmul chains"""
@@ -569,9 +670,25 @@ class Normalizer:
             d[m] = d.get(m, 0) + k
         return _mk(d)
 
-    def linear_reduce(self, op, a, cyclic=False):
-        inner = self.nf(a[0])
+    def linear_reduce(self, op, a, cyclic=False, inner=None):
+        if inner is None:
+            inner = self.nf(a[0])
         rest = tuple(self.freeze(x) for x in a[1:])
+        if op == "average":
+            w = [r for r in rest if isinstance(r, tuple) and r and r[0] == "weights"]
+            ax = [r for r in rest if isinstance(r, tuple) and r and r[0] == "axis"]
+            others = [r for r in rest if r not in w and r not in ax]
+            if w and not others:
+                # weighted average along the leading (axis 0 / 1-D) or trailing (axis 1) axis:
+                # (w @ A) / sum(w)   resp.   (A @ w) / sum(w)
+                wt = [x for x in a[1:] if isinstance(x, tuple) and x and x[0] == "weights"][0][1]
+                pw = self.nf(wt)
+                sw = self.linear_reduce("sum", (wt,))
+                axis = ax[0][1] if ax else Fraction(0)
+                if axis == Fraction(0):
+                    return p_had(p_matmul(pw, inner), p_pow(self._as_scalar(sw), -1))
+                if axis == Fraction(1):
+                    return p_had(p_matmul(inner, pw), p_pow(self._as_scalar(sw), -1))
         has_w = any(isinstance(r, tuple) and r and r[0] == "weights" for r in rest)
         if op == "average" and not has_w:
             op = "mean"
